@@ -45,7 +45,12 @@ def translate(repo):
     items.append(typed("cleanup_clears_in_finally", "bool", coq_bool(ok and in_finally)))
     items.append(typed("cleanup_default_anyway", "bool", coq_bool(u(find_func(cls, "_cleanup").args).endswith("_anyway=True"))))
     items.append(shape("_cleanup", func_shape(find_func(cls, "_cleanup"))))
-    items.append(typed("handle_close_is_cleanup", "bool", coq_bool([u(x) for x in strip_doc(find_func(cls, "_handle_close").body)] == ["self._cleanup()"])))
+    hc = [u(x) for x in strip_doc(find_func(cls, "_handle_close").body)]
+    if hc not in (["self._cleanup()"], ["self._cleanup(_anyway=False)"]):
+        raise Unrecognised("_handle_close: %r" % (hc,))
+    items.append(typed("handle_close_is_cleanup", "bool", coq_bool(True)))            # one of the two forms above: the cleanup, raw or guarded
+    # guarded: a close request served while close() itself is under way (flag already set) leaves the cleanup to that close()
+    items.append(typed("handle_close_guarded", "bool", coq_bool(hc == ["self._cleanup(_anyway=False)"])))
     # ---- serve(): where EOFError closes
     sv = strip_doc(find_func(cls, "serve").body)
     tr = [n for n in sv if isinstance(n, ast.Try)]
